@@ -298,9 +298,28 @@ pub fn phase(sim: &mut Sim, rng: &mut Rng, rep: &mut Report) -> Result<(), Strin
 	// the miner after whatever the victim broadcasts (and so win the race for the outputs they spend)
 	let mut attacker_live: Vec<Transaction> = vec![];
 	let cheater_last_word = rng.chance(1, 2);
+	// "fee chaser" (a third of the fee-market runs of a latest-commitment close, never with chain-delivery copies):
+	// one inbound HTLC with a known preimage is left unclaimed until 44 blocks before its expiry; from then on
+	// the fee level rises right after every transaction the claiming node relays – so that nothing it offers is
+	// mined at the feerate it was built with – until ten blocks before the expiry, and stays where it is after
+	// that. A node that re-issues its claim at the fee level of the moment often enough near the deadline still
+	// gets it confirmed in time; U4 judges the outcome (see the entitlement rule in monitors/onchain.rs).
+	let tc = lightning::ln::verif_api::timing_constants();
+	let mut chase: Option<(usize, [u8; 32], u32)> = None; // (claiming node, payment hash, expiry)
+	if fee_market && !rec.revoked && !sim.w.chain_equiv && !late_mode && rng.chance(1, 3) {
+		let h = sim.w.chain.height();
+		if let Some(c) = sim.w.claimable.iter().filter(|c| c.preimage.is_some()).find(|c| c.deadline.map(|d| d > h + 8).unwrap_or(false)) {
+			chase = Some((c.node, c.hash.0, c.deadline.unwrap() + tc.htlc_fail_back_buffer));
+			sim.w.miner_delay_max = sim.w.miner_delay_max.min(2);
+			rep.count("onchain_fee_chaser_runs");
+		}
+	}
+	let mut chase_raises = 0u32;
+	let mut relays_seen: std::collections::HashSet<Txid> = Default::default();
+	let mut relay_cursor = sim.w.relayed_valid.len();
 	for _ in 0..600 {
 		let before = sim.w.chain.stats_validated;
-		if fee_market && rng.chance(1, 8) {
+		if fee_market && chase.is_none() && rng.chance(1, 8) {
 			let cur = sim.w.fee_now;
 			let new = match rng.below(4) {
 				0 | 1 => cur.saturating_mul(2),
@@ -311,6 +330,9 @@ pub fn phase(sim: &mut Sim, rng: &mut Rng, rep: &mut Report) -> Result<(), Strin
 			sim.w.note(format!("ONCHAIN fee level {} -> {} (estimators and miner policy)", cur, new));
 			for k in 0..n {
 				sim.w.nodes[k].set_fee(new);
+			}
+			if new > cur {
+				sim.w.fee_rises.push(sim.w.chain.height());
 			}
 			sim.w.fee_now = new;
 			sim.w.miner_min_feerate = new;
@@ -324,7 +346,7 @@ pub fn phase(sim: &mut Sim, rng: &mut Rng, rep: &mut Report) -> Result<(), Strin
 		// those forks branch off right above the block of the commitment transaction)
 		let tip = sim.w.chain.height();
 		let stage2_fresh = sim.w.close.as_ref().map(|c| c.attacker_txids.iter().skip(1).any(|t| sim.w.chain.confirmed_at.get(t).map(|h| *h + 5 > tip).unwrap_or(false))).unwrap_or(false);
-		if sim.w.reorgs && tip > floor && (rng.chance(1, 10) || (stage2_fresh && rng.chance(1, 4))) {
+		if sim.w.reorgs && chase.is_none() && tip > floor && (rng.chance(1, 10) || (stage2_fresh && rng.chance(1, 4))) {
 			let mut d = (1 + rng.below(5) as u32).min(tip - floor);
 			if let Some(hc) = sim.w.close.as_ref().and_then(|c| c.commitment_txid).and_then(|t| sim.w.chain.confirmed_at.get(&t).cloned()) {
 				if stage2_fresh && hc >= floor && tip > hc && rng.chance(1, 2) {
@@ -382,6 +404,56 @@ pub fn phase(sim: &mut Sim, rng: &mut Rng, rep: &mut Report) -> Result<(), Strin
 				}
 			}
 			attacker_live = still;
+		}
+		// preimages learned only after the close (claim_funds while the channel is already on chain)
+		if !sim.w.chain_equiv && !sim.w.claimable.is_empty() {
+			let h = sim.w.chain.height();
+			// (the manager gives a payment up when the tip reaches its claim deadline, and a fork that lowers the
+			// tip afterwards does not bring it back: what counts is the highest tip the node has seen)
+			let peak = sim.w.peak_height;
+			let mut k = 0;
+			while k < sim.w.claimable.len() {
+				let c = &sim.w.claimable[k];
+				let in_time = c.deadline.map(|d| peak + 1 < d).unwrap_or(false);
+				let is_target = chase.map(|t| t.0 == c.node && t.1 == c.hash.0).unwrap_or(false);
+				let now = if is_target { chase.map(|t| h + 44 >= t.2).unwrap_or(false) } else { rng.chance(1, 12) };
+				if in_time && now && c.preimage.is_some() {
+					sim.w.note(format!("ONCHAIN late claim of claimable {} at height {} (deadline {:?}{})", k, h, c.deadline, if is_target { ", fee chaser target" } else { "" }));
+					sim.w.claim(k);
+					rep.count("onchain_claims_after_the_close");
+					if is_target {
+						rep.count("onchain_fee_chaser_targets_claimed");
+					}
+				} else {
+					k += 1;
+				}
+			}
+			events_all(sim, rep);
+		}
+		if let Some((cn, _, expiry)) = chase {
+			sim.w.relay_broadcasts();
+			let mut fresh = false;
+			for (node, txid) in sim.w.relayed_valid[relay_cursor..].iter() {
+				if *node == cn && relays_seen.insert(*txid) {
+					fresh = true;
+				}
+			}
+			relay_cursor = sim.w.relayed_valid.len();
+			let h = sim.w.chain.height();
+			let cur = sim.w.fee_now;
+			if fresh && h + 10 < expiry && h + 46 >= expiry && chase_raises < 8 && cur < 12_000 {
+				let new = (cur + cur * 2 / 5 + 1).min(12_000);
+				sim.w.note(format!("ONCHAIN fee chaser: level {} -> {} right after node{} relayed (expiry {})", cur, new, cn, expiry));
+				for k in 0..n {
+					sim.w.nodes[k].set_fee(new);
+				}
+				sim.w.fee_rises.push(h);
+				sim.w.fee_now = new;
+				sim.w.miner_min_feerate = new;
+				chase_raises += 1;
+				rep.count("onchain_fee_chaser_raises");
+			}
+			sim.dispatch(rep);
 		}
 		sim.w.mine(1);
 		for k in 0..n {
